@@ -66,6 +66,14 @@ RULE = (
     "non-trivial = a MOVE_TO is present (X4), always (X5, X7), nesting depth >= 1 (X6). "
     "oracle O6: select.bbox_inside/bbox_outside/bbox_overlap for Window and Circle on generated documents, with and without cache, "
     "against the set-theoretic reading computed here (per-axis intervals; closest-point / farthest-corner distance for the circle). "
+    "Round 2: X9 (add_bezier4p / add_bezier3p): chains of curves with dyadic control points, inner control points collapsed into the "
+    "start point, the end point, both or none, gaps between curves: commands of the resulting path vs the model, exact, plus path.bbox "
+    "(fast and precise) against dense samples of every curve; X8 now also documents with MESH, POLYFACE, POLYMESH, TRACE, SOLID, 3DFACE, "
+    "IMAGE, WIPEOUT, VIEWPORT, TEXT, MTEXT, INSERT+ATTRIB and the primitive kinds line / point / mesh / path of the model (PrimRep); "
+    "oracle O8: extents of these special entities = box of their declared WCS vertex set; X6 also INSERTs in an OCS with an "
+    "axis-parallel tilted extrusion (matrix ocsAff = C12 insertMatrix); O4 mixed 3D/2D operand pairs (2D operand at z = 0); O1 SPLINEs "
+    "with doubled end control points; O7b cubic_bezier_from_arc (segment count, end directions) for -360 <= start < 360; O9 bulge_to_arc "
+    "vs the trigonometry-free model (centre, radius, angles, apex). "
     "oracle O7: cubic_bezier_arc_parameters (accelerated twin) for random start angles, sweeps and segment counts against the closed "
     "form of the radial error proved in arc_bezier_radial_error (|B(t)|^2 - 1 = u^6 w^2 (1-w^2)^2 / (1+u^2)^2, 1e-12), segment angle "
     "<= 90 degrees, segments joined, radial bounds [1, 1.0004]."
@@ -82,6 +90,8 @@ TRUSTED_BASE = [
     "(kernel_precise_step, kernel_cubic_params, kernel_quad_elevation) and run against the code (X4, X5)",
     "X6: the mapping recipe entity -> model leaf (vertex list) in tree_points() and the rational cos/sin of the rotation angle; "
     "rounding to the grid 2^-20 (inputs have <= 2 fractional bits resp. denominators 5^k, far from the rounding boundaries)",
+    "round 2: translate_add_bezier, translate_primitives (live registry _PRIMITIVE_CLASSES + MRO of `bbox`), the text pins of "
+    "cubic_bezier_from_arc's normalisation; special_doc()'s declared vertex sets of MESH/POLYFACE/POLYMESH/TRACE/SOLID/3DFACE/IMAGE/WIPEOUT/VIEWPORT",
     "select: distances are compared through their squares in the model (radius >= 0); math.hypot is exact enough on the quarter-valued X7 inputs",
     "IEEE sqrt/division are exact on the X5 inputs (perfect-square discriminants, dyadic roots) up to the grid",
     "arcs: the tangent half-angle substitution u = tan(segment_angle/4) links the rational model (rotByQuarterTan) to angles; the link is "
@@ -108,6 +118,12 @@ OPEN = [
     "OCS of an INSERT with a tilted extrusion, entity.transform() of curved entities under non-uniform scaling (ARC -> ELLIPSE) and the "
     "representability test of Insert.transform are not in the tree model (C12 proves the INSERT algebra; here oracle O1; the tree theorems "
     "hold for EVERY representability predicate)",
+    "cubic_bezier_from_arc outside the range the converters deliver is WRONG and not covered by from_arc_normalised: start_angle >= 360 "
+    "adds floor(start/360) full turns to the sweep (cubic_bezier_from_arc((0,0),1,360,450) yields 5 segments = 1.25 turns), start < 0 with "
+    "a 360 degree span raises ValueError (cubic_bezier_from_arc((0,0),1,-90,270)); not reachable from ARC/CIRCLE/ELLIPSE/bulge conversion "
+    "(bulge_to_arc angles come from atan2, spans < 360), reported as observation (C13/C14 area), no fix made",
+    "the reversal branch of add_bezier4p/add_bezier3p (curves given end-to-start: reverse_bezier_curves) is not in the model; X9 avoids it",
+    "TEXT/MTEXT/ATTRIB primitives: only the consistency Primitive.bbox = box of the own path/mesh is checked (text is outside the property)",
     "the modification step of the cache histories is outside the model: the theorem invalidate_then_extents takes the old and the new "
     "truth function (box per key) as given",
     "select.Polygon and bbox_crosses_fence (Cohen-Sutherland clipping, documented as approximate for concave polygons) are not modelled",
@@ -617,6 +633,81 @@ def pin_invalidate(src_ez: str) -> None:
     raise Unsupported("class Cache not found")
 
 
+def translate_primitives(src_dis: str) -> str:
+    """T-tab from the LIVE registry disassemble._PRIMITIVE_CLASSES: dxftype -> (primitive class, class that defines bbox); the
+    three bbox bodies and the default class of make_primitive are pinned by text"""
+    from ezdxf import disassemble
+
+    tree = ast.parse(src_dis)
+    want = {
+        "Primitive": ["if self.mesh:\n    return BoundingBox(self.vertices())", "path = self.path",
+                      "if path:\n    if fast:\n        return BoundingBox(path.control_vertices())\n    return precise_bbox(path)",
+                      "return BoundingBox()"],
+        "LinePrimitive": ["e = self.entity", "return BoundingBox((e.dxf.start, e.dxf.end))"],
+        "PointPrimitive": ["return BoundingBox((self.entity.dxf.location,))"],
+    }
+    for cls, body in want.items():
+        got = [ast.unparse(s) for s in _body(_methods(tree, cls)["bbox"])]
+        if got != body:
+            raise Unsupported(f"{cls}.bbox is {got}")
+    mp = [ast.unparse(s) for s in ast.walk(_func(tree, "make_primitive")) if isinstance(s, ast.Assign)]
+    if "cls = _PRIMITIVE_CLASSES.get(entity.dxftype(), EmptyPrimitive)" not in mp:
+        raise Unsupported("make_primitive: class lookup")
+    rows = []
+    for dxftype, cls in sorted(disassemble._PRIMITIVE_CLASSES.items()):
+        owner = next(k.__name__ for k in cls.__mro__ if "bbox" in k.__dict__)
+        rule = {"Primitive": "base", "LinePrimitive": "line", "PointPrimitive": "point"}.get(owner, "override:" + owner)
+        rows.append(f"({lean_str(dxftype)}, {lean_str(cls.__name__)}, {lean_str(rule)})")
+    return ("/-- live `disassemble._PRIMITIVE_CLASSES`: (dxftype, primitive class, bbox rule: base = `Primitive.bbox`, line, point) -/\n"
+            "def primitiveTable : List (String × String × String) := " + lean_list(rows, per_line=2) + "\n\n")
+
+
+def translate_add_bezier(src_tools: str) -> str:
+    """loop bodies of path.tools.add_bezier4p / add_bezier3p: the connecting line and the linear-segment rule as a Boolean
+    function of the isclose() tests in the order in which they are written (near = start.isclose(path.end), l1, l2)"""
+    tree = ast.parse(src_tools)
+    out = ""
+    for fname, unpack, name in (("add_bezier4p", "start, ctrl1, ctrl2, end = curve.control_points", "addBezier4Body"),
+                                ("add_bezier3p", "start, ctrl, end = curve.control_points", "addBezier3Body")):
+        fn = _func(tree, fname)
+        loops = [s for s in fn.body if isinstance(s, ast.For)]
+        if len(loops) != 1 or ast.unparse(loops[0].iter) != "curves" or len(loops[0].body) != 3:
+            raise Unsupported(f"{fname}: loop")
+        b0, b1, b2 = loops[0].body
+        if ast.unparse(b0).replace("(", "").replace(")", "") != unpack:
+            raise Unsupported(f"{fname}: unpacking")
+        atoms = []
+
+        def boolean(e):
+            if isinstance(e, ast.UnaryOp) and isinstance(e.op, ast.Not):
+                return f"(!{boolean(e.operand)})"
+            if isinstance(e, ast.BoolOp):
+                return "(" + (" && " if isinstance(e.op, ast.And) else " || ").join(boolean(v) for v in e.values) + ")"
+            if isinstance(e, ast.Call) and isinstance(e.func, ast.Attribute) and e.func.attr == "isclose":
+                key = ast.unparse(e.func.value) + "~" + ast.unparse(e.args[0])
+                atoms.append(key)
+                return {"start~path.end": "near"}.get(key, f"l{len([a for a in atoms if a != 'start~path.end'])}")
+            raise Unsupported(f"{fname}: condition {ast.unparse(e)}")
+
+        def calls(stmts):
+            got = [ast.unparse(s) for s in stmts]
+            if not all(g.startswith("path.") for g in got):
+                raise Unsupported(f"{fname}: statements {got}")
+            return "[" + ", ".join(lean_str(g[5:]) for g in got) + "]"
+
+        if not (isinstance(b1, ast.If) and not b1.orelse and isinstance(b2, ast.If)):
+            raise Unsupported(f"{fname}: shape")
+        c1 = boolean(b1.test)
+        c2 = boolean(b2.test)
+        want_atoms = {"add_bezier4p": ["start~path.end", "start~ctrl1", "end~ctrl2"], "add_bezier3p": ["start~path.end", "start~ctrl", "end~ctrl"]}[fname]
+        if atoms != want_atoms:
+            raise Unsupported(f"{fname}: tests {atoms}")
+        out += (f"/-- loop body of `{fname}`: the `path.` calls made, as a function of the three `isclose` tests -/\n"
+                f"def {name} (near l1 l2 : Bool) : List String :=\n  (bif {c1} then {calls(b1.body)} else []) ++ "
+                f"(bif {c2} then {calls(b2.body)} else {calls(b2.orelse)})\n\n")
+    return out
+
+
 def translate_select(src_select: str) -> str:
     """`select.Circle.is_overlapping_bbox`: the point that is tested (closest point of the box); the one-line methods of
     Window and Circle are pinned by text"""
@@ -679,6 +770,14 @@ def translate_arc(src_b4: str) -> str:
                  "end_point: Vec3 = Vec3.from_angle(angle)", "start_point = end_point", "end_point = Vec3.from_angle(angle)"):
         if want not in text:
             raise Unsupported(f"cubic_bezier_arc_parameters: missing {want!r}")
+    # round 2: the angle normalisation of cubic_bezier_from_arc (model fromArcStart / fromArcEnd, theorem from_arc_normalised)
+    fa = _func(tree, "cubic_bezier_from_arc")
+    fa_text = [ast.unparse(s) for s in _body(fa)]
+    for want in ("angle_span: float = arc_angle_span_deg(start_angle, end_angle)", "if abs(angle_span) < 1e-09:\n    return",
+                 "s: float = start_angle", "start_angle = math.radians(s) % math.tau", "end_angle = math.radians(s + angle_span)",
+                 "while start_angle > end_angle:\n    end_angle += math.tau"):
+        if want not in fa_text:
+            raise Unsupported(f"cubic_bezier_from_arc: missing {want!r}")
     loop = [s for s in fn.body if isinstance(s, ast.For)]
     if len(loop) != 1 or ast.unparse(loop[0].body[-1]) != "yield (start_point, control_point_1, control_point_2, end_point)":
         raise Unsupported("cubic_bezier_arc_parameters: loop")
@@ -844,7 +943,7 @@ def regenerate(ctx):
     pin_invalidate(texts[3])
     extra_srcs = [TOOLS_PY, CMDS_PY, CURVETOOLS_PY, SELECT_PY]
     tools, cmds, ct, sel = (ctx.src(s) for s in extra_srcs)
-    extra = translate_precise_step(tools, cmds) + "\n" + translate_cubic(ct) + translate_select(sel) + translate_arc(texts[1]) + translate_vertices(texts[0])
+    extra = translate_precise_step(tools, cmds) + "\n" + translate_add_bezier(tools) + translate_cubic(ct) + translate_select(sel) + translate_arc(texts[1]) + translate_vertices(texts[0]) + translate_primitives(ctx.src("src/ezdxf/disassemble.py"))
     ctx.write_gen("BBoxKernels", translate(*texts, extra=extra), srcs + extra_srcs)
 
 
@@ -1207,6 +1306,11 @@ def gen_entity(rng, blocks, depth_ok=True, kinds=None):
         deg = rng.choice([2, 3, 3, 3, 4])
         n = rng.randint(deg + 1, deg + 5)
         cps = [[rc(rng), rc(rng), rng.choice([0, 0, rc(rng, -3, 3)])] for _ in range(n)]
+        dbl = rng.random()
+        if dbl < 0.15:  # doubled first / last control point (zero end tangent): exact Bezier segments with a collapsed control point
+            cps[1] = list(cps[0])
+        elif dbl < 0.3:
+            cps[-2] = list(cps[-1])
         w = [rng.choice([1, 1, 2, 0.5, 3]) for _ in range(n)] if rng.random() < 0.3 else None
         return {"t": k, "control_points": cps, "degree": deg, "weights": w}
     if k == "SOLID":
@@ -1765,10 +1869,13 @@ def gen_tree_entity(rng, blocks):
     s = lambda: rng.choice([1, 1, 2, 0.5, -1, -2, 1.5, -0.5])
     sx = s()
     cs = rng.choice(ROTS)
-    return {"t": "INSERT", "name": rng.choice(blocks), "insert": [c(), c(), c(-3, 3)],
+    ins = {"t": "INSERT", "name": rng.choice(blocks), "insert": [c(), c(), c(-3, 3)],
             "scale": [sx, sx, sx] if rng.random() < 0.4 else [sx, s(), s()], "cs": [str(Fraction(cs[0])), str(Fraction(cs[1]))],
             "rotation": math.degrees(math.atan2(float(cs[1]), float(cs[0]))), "extrusion": [0, 0, 1],
             "grid": [rng.randint(1, 3), rng.randint(1, 2), c(1, 6), c(1, 6)] if rng.random() < 0.2 else None}
+    if ins["grid"] is None and rng.random() < 0.3:  # an OCS whose axes are exact: extrusion parallel to a coordinate axis
+        ins["extrusion"] = list(rng.choice([(0, 0, -1), (1, 0, 0), (0, 1, 0), (-1, 0, 0), (0, -1, 0)]))
+    return ins
 
 
 def tree_points(e):
@@ -1800,6 +1907,9 @@ def tree_tokens(e, blocks, key) -> list:
     grid = e.get("grid")
     if grid and grid[0] * grid[1] > 1:
         out = ["G"] + head + [",".join(str(Fraction(v)) for v in grid)]
+    elif list(e["extrusion"]) != [0, 0, 1]:
+        ax, ay, az = ocs_axes(e["extrusion"])  # arbitrary axis algorithm; exact (0, +-1) for axis-parallel extrusions
+        out = ["K", key] + [fr3([float(round(v)) for v in a]) for a in (ax, ay, az)] + head[1:]
     else:
         out = ["J"] + head
     for ce in blk["entities"]:  # the forest of the block, closed by N; the rest of the enclosing forest follows
@@ -1864,6 +1974,8 @@ def correspond_tree(ctx):
         dep = max([tree_depth(e, blocks) for e in recipe["msp"]], default=0)
         if any(e["t"] == "INSERT" and e.get("grid") and e["grid"][0] * e["grid"][1] > 1 for b in blocks + [{"entities": recipe["msp"]}] for e in b["entities"]):
             ctx.hist(S, "with MINSERT")
+        if any(e["t"] == "INSERT" and list(e["extrusion"]) != [0, 0, 1] for b in blocks + [{"entities": recipe["msp"]}] for e in b["entities"]):
+            ctx.hist(S, "with OCS INSERT")
         req = f"tree|{1 if fast else 0}|{d % 2}|" + " ".join(toks)
         cases.append((req, ";".join(impl) + "|" + grid_box(total) + "|" + grid_box(cached) + "|" + str(dep), dep > 0))
         ctx.hist(S, "depth=%d" % dep)
@@ -1903,6 +2015,82 @@ def correspond_select(ctx):
     ctx.correspond(S, "C15", cases, build=DRIVER_DEPS)
 
 
+def special_doc(rng):
+    """entities with their own primitive classes: MESH, POLYFACE, POLYMESH, TRACE, SOLID, 3DFACE, IMAGE, WIPEOUT, VIEWPORT, TEXT, MTEXT,
+    INSERT with ATTRIB; returns (doc, entities, {handle: WCS points whose box is the box of the entity})"""
+    import ezdxf
+
+    doc = ezdxf.new("R2010")
+    msp = doc.modelspace()
+    c = lambda lo=-10, hi=10: rng.randint(lo * 4, hi * 4) / 4
+    ents, expect = [], {}
+    for _ in range(rng.randint(3, 7)):
+        k = rng.choice(["MESH", "POLYFACE", "POLYMESH", "TRACE", "SOLID", "3DFACE", "IMAGE", "WIPEOUT", "VIEWPORT", "TEXT", "MTEXT", "ATTRIB"])
+        if k == "MESH":
+            vs = [(c(), c(), c()) for _i in range(rng.randint(3, 6))]
+            e = msp.add_mesh()
+            with e.edit_data() as md:
+                md.vertices = list(vs)
+                md.faces = [list(range(len(vs)))]
+            expect[e.dxf.handle] = vs
+        elif k == "POLYFACE":
+            e = msp.add_polyface()
+            faces = [[(c(), c(), c()) for _i in range(rng.choice([3, 4]))] for _j in range(rng.randint(1, 3))]
+            e.append_faces(faces)
+            expect[e.dxf.handle] = [v for f in faces for v in f]
+        elif k == "POLYMESH":
+            m_, n_ = rng.randint(2, 3), rng.randint(2, 3)
+            e = msp.add_polymesh((m_, n_))
+            vs = []
+            for i in range(m_):
+                for j in range(n_):
+                    v = (c(), c(), c())
+                    e.set_mesh_vertex((i, j), v)
+                    vs.append(v)
+            expect[e.dxf.handle] = vs
+        elif k in ("TRACE", "SOLID"):
+            z = c(-3, 3)
+            vs = [(c(), c(), z) for _i in range(4)]
+            e = (msp.add_trace if k == "TRACE" else msp.add_solid)(vs)
+            expect[e.dxf.handle] = vs
+        elif k == "3DFACE":
+            vs = [(c(), c(), c()) for _i in range(4)]
+            e = msp.add_3dface(vs)
+            expect[e.dxf.handle] = vs
+        elif k == "IMAGE":
+            w, h = rng.choice([(640, 480), (100, 100), (16, 9)])
+            idef = doc.add_image_def(filename="x.png", size_in_pixel=(w, h))
+            ins, size, rot = (c(), c(), c(-3, 3)), (rng.randint(1, 20) / 2, rng.randint(1, 20) / 2), rng.choice([0, 0, 90, 30, -45])
+            e = msp.add_image(idef, insert=ins, size_in_units=size, rotation=rot)
+            ca, sa = math.cos(math.radians(rot)), math.sin(math.radians(rot))
+            expect[e.dxf.handle] = [(ins[0] + x * ca - y * sa, ins[1] + x * sa + y * ca, ins[2]) for x, y in ((0, 0), (size[0], 0), (size[0], size[1]), (0, size[1]))]
+        elif k == "WIPEOUT":
+            vs = [(c(), c()) for _i in range(rng.randint(3, 5))]
+            e = msp.add_wipeout(vs)
+            if len(vs) > 2:
+                expect[e.dxf.handle] = [(x, y, 0.0) for x, y in vs]
+        elif k == "VIEWPORT":
+            psp = doc.paperspace()
+            cx, cy, w, h = c(), c(), rng.randint(1, 20) / 2, rng.randint(1, 20) / 2
+            e = psp.add_viewport(center=(cx, cy), size=(w, h), view_center_point=(0, 0), view_height=10)
+            if rng.random() < 0.3:
+                e.dxf.status = 0  # off: empty primitive
+            else:
+                expect[e.dxf.handle] = [(cx - w / 2, cy - h / 2, 0.0), (cx + w / 2, cy + h / 2, 0.0)]
+        elif k == "TEXT":
+            e = msp.add_text("abc", dxfattribs={"height": rng.choice([0.5, 1, 2.5]), "rotation": rng.choice([0, 30, 90]), "insert": (c(), c())})
+        elif k == "MTEXT":
+            e = msp.add_mtext("line 1\\Pline 2", dxfattribs={"char_height": rng.choice([0.5, 1]), "insert": (c(), c()), "rotation": rng.choice([0, 45])})
+        else:
+            blk = doc.blocks.get("SB") or doc.blocks.new("SB")
+            if len(blk) == 0:
+                blk.add_line((0, 0), (1, 1))
+            e = msp.add_blockref("SB", (c(), c()))
+            e.add_attrib("TAG", "value", (c(), c()))
+        ents.append(e)
+    return doc, ents, expect
+
+
 def correspond_primitives(ctx):
     """X8: Primitive.bbox(fast=True) of EVERY primitive of generated documents (all entity kinds of the oracle generator, tilted
     extrusions, nested INSERTs whose virtual entities get tilted OCS) is the box of the control vertices of its path resp. of
@@ -1912,16 +2100,42 @@ def correspond_primitives(ctx):
     S = "X8 primitive fast box"
     rng = ctx.rng("x8")
     cases = []
-    for d in range(ctx.n(60, 600)):
+    for d in range(ctx.n(90, 900)):
         recipe = gen_recipe(rng, rng.randint(2, 5), rng.randint(0, 3), 2)
         try:
-            doc, ents = build_doc(recipe)
-        except Exception:  # noqa  (reported by O1)
+            if d % 3 == 2:
+                doc, ents, expect = special_doc(rng)
+                recipe = {"special": True}
+            else:
+                doc, ents = build_doc(recipe)
+                expect = {}
+        except Exception as ex:  # noqa
+            if d % 3 == 2:
+                ctx.fail(f"prim/special-doc/{type(ex).__name__}/{d}", f"building the special document raised {ex!r}", {"op": "none"})
             continue
+        for e in ents:  # the special entities with a known vertex set: the box of the entity is the box of these WCS points
+            if e.dxf.handle in expect:
+                from ezdxf import bbox as _bbox
+                import numpy as _np
+                pts_ = _np.array(expect[e.dxf.handle], dtype=float)
+                for fast_ in (False, True):
+                    b = _bbox.extents([e], fast=fast_)
+                    ok = b.has_data and float(_np.abs(_np.array(b.extmin) - pts_.min(0)).max()) < 1e-9 and \
+                        float(_np.abs(_np.array(b.extmax) - pts_.max(0)).max()) < 1e-9
+                    ctx.count("O8 special entities", (d, e.dxf.handle, fast_), True)
+                    ctx.hist("O8 special entities", e.dxftype())
+                    if not ok:
+                        ctx.fail(f"prim/vertex-set/{e.dxftype()}/{d}", f"{e.dxftype()} #{e.dxf.handle} fast={fast_}: extents {b} is not the box of "
+                                 f"its vertices {pts_.min(0).tolist()} {pts_.max(0).tolist()}", {"op": "none"})
         for pr in disassemble.to_primitives(disassemble.recursive_decompose(ents)):
             if pr.is_empty:
                 continue
-            if pr.path is not None:
+            cname = type(pr).__name__
+            if cname == "LinePrimitive":
+                kind, pts = "line", [pr.entity.dxf.start, pr.entity.dxf.end]
+            elif cname == "PointPrimitive":
+                kind, pts = "point", [pr.entity.dxf.location]
+            elif pr.path is not None:
                 kind, pts = "path", list(pr.path.control_vertices())
             elif pr.mesh is not None:
                 kind, pts = "mesh", list(pr.vertices())
@@ -1929,16 +2143,86 @@ def correspond_primitives(ctx):
                 kind, pts = "mesh", list(pr.vertices())
             if not pts or len(pts) > 400:
                 continue
+            ctx.hist(S, "kind=" + kind)
             req = f"primfast|{kind}|" + ";".join(",".join(str(Fraction(c)) for c in (v.x, v.y, v.z)) for v in pts)
-            cases.append((req, show_box(pr.bbox(fast=True)), True))
+            cases.append((req, show_box(pr.bbox(fast=True)) + ";" + show_box(pr.bbox(fast=True)), True))
             # precise mode of the same primitive: exactly precise_bbox(path) resp. the box of the mesh vertices (no shortcut)
             from ezdxf.path import precise_bbox
             from ezdxf.math import BoundingBox
-            want = precise_bbox(pr.path) if pr.path is not None else BoundingBox(pts)
+            want = precise_bbox(pr.path) if (pr.path is not None and kind == "path") else BoundingBox(pts)
             if not same_box(pr.bbox(fast=False), want):
                 ctx.fail(f"prim/precise-box/{pr.entity.dxftype()}/{d}", f"doc {d}: Primitive.bbox(fast=False) of {pr.entity.dxftype()} = {pr.bbox(fast=False)} "
                          f"but precise_bbox(path) = {want}", {"op": "doc", "recipe": recipe, "index": None})
             ctx.hist(S, pr.entity.dxftype() + ("/virtual" if pr.entity.dxf.handle is None else ""))
+    ctx.correspond(S, "C15", cases, build=DRIVER_DEPS)
+
+
+def correspond_add_bezier(ctx):
+    """X9: path.tools.add_bezier4p / add_bezier3p on chains of curves with dyadic control points, inner control points collapsed
+    into the start point, the end point, both or none, gaps between consecutive curves: the commands of the resulting path vs
+    the model (addBezier4 / addBezier3Step), exact; oracle: path.bbox (fast and precise) contains dense samples of every curve"""
+    import numpy as np
+    from ezdxf import path as ezpath
+    from ezdxf.path import tools as ptools
+    from ezdxf.math import Bezier4P, Bezier3P, Vec3
+
+    S = "X9 add_bezier"
+    rng = ctx.rng("x9")
+    cases = []
+    ts = np.linspace(0, 1, 201)[:, None]
+    q = lambda: [rng.randint(-40, 40) / 4 for _ in range(3)]
+    for n in range(ctx.n(1500, 12000)):
+        cubic = n % 3 != 0
+        pen = q()
+        chain, cur = [], (pen if rng.random() < 0.7 else q())
+        for _ in range(rng.randint(1, 3)):
+            s = cur
+            e = q()
+            while e == s:
+                e = q()
+            mode = rng.choice(["none", "none", "start", "end", "both"])
+            if cubic:
+                c1 = list(s) if mode in ("start", "both") else q()
+                c2 = list(e) if mode in ("end", "both") else q()
+                chain.append((s, c1, c2, e))
+            else:
+                c = list(s) if mode == "start" else list(e) if mode == "end" else q()
+                chain.append((s, c, e))
+            cur = e if rng.random() < 0.8 else q()
+        if chain[-1][-1] == pen:  # would trigger the reversal of the chain (not modelled)
+            continue
+        p = ezpath.Path(Vec3(pen))
+        if cubic:
+            ptools.add_bezier4p(p, [Bezier4P([Vec3(v) for v in cv]) for cv in chain])
+        else:
+            ptools.add_bezier3p(p, [Bezier3P([Vec3(v) for v in cv]) for cv in chain])
+        impl = []
+        for cmd in p.commands():
+            name = cmd.type.name
+            if name == "LINE_TO":
+                impl.append("L:" + fr3(cmd.end))
+            elif name == "CURVE4_TO":
+                impl.append("C4:" + fr3(cmd.ctrl1) + ":" + fr3(cmd.ctrl2) + ":" + fr3(cmd.end))
+            elif name == "CURVE3_TO":
+                impl.append("C3:" + fr3(cmd.ctrl) + ":" + fr3(cmd.end))
+            else:
+                impl.append("M:" + fr3(cmd.end))
+        req = ("addbez4|" if cubic else "addbez3|") + fr3(pen) + "|" + ";".join(":".join(fr3(v) for v in cv) for cv in chain)
+        cases.append((req, ";".join(impl), True))
+        ctx.hist(S, "cubic" if cubic else "quadratic")
+        for fast in (False, True):
+            b = ezpath.bbox([p], fast=fast)
+            for cv in chain:
+                A = [np.array(v, dtype=float) for v in cv]
+                if cubic:
+                    pts = (1 - ts) ** 3 * A[0] + 3 * (1 - ts) ** 2 * ts * A[1] + 3 * (1 - ts) * ts ** 2 * A[2] + ts ** 3 * A[3]
+                else:
+                    pts = (1 - ts) ** 2 * A[0] + 2 * (1 - ts) * ts * A[1] + ts ** 2 * A[2]
+                out = max(float((np.array(b.extmin) - pts.min(0)).max()), float((pts.max(0) - np.array(b.extmax)).max())) if b.has_data else 1e9
+                if out > 1e-6:
+                    ctx.fail(f"addbezier/{'cubic' if cubic else 'quadratic'}/{n}", f"add_bezier{'4p' if cubic else '3p'} of {chain} onto a path at {pen}: "
+                             f"path.bbox(fast={fast}) {b} misses the curve {cv} by {out:.3g}", {"op": "none"})
+                    break
     ctx.correspond(S, "C15", cases, build=DRIVER_DEPS)
 
 
@@ -1951,6 +2235,7 @@ def correspond(ctx):
     correspond_tree(ctx)
     correspond_select(ctx)
     correspond_primitives(ctx)
+    correspond_add_bezier(ctx)
 
 
 # ====================================================================== oracle on the real code
@@ -2349,6 +2634,35 @@ def oracle_algebra(ctx):
             for msg in bad:
                 ctx.fail(f"algebra/{dim}d/{msg.split()[0]}/{spec_str(sa)}/{spec_str(sb)}", f"{dim}d a={sa} b={sb}: {msg}",
                          {"op": "algebra", "dim": dim, "a": sa, "b": sb})
+        # mixed operands: a 2D argument of a 3D method is the box at z = 0, a 3D argument of a 2D method its xy projection
+        if dim == 3:
+            grid2 = [g for g in boxes2(ctx) if wf(g) and g is not None]
+            for sa in [r for r in refs if r is not None] + rng.sample([g for g in grid if g is not None], ctx.n(30, 200)):
+                for sb in rng.sample(grid2, ctx.n(25, 60)):
+                    a, b = mk3(sa), mk2(sb)
+                    ctx.count(S, ("mixed", sa, sb), True)
+                    bad = []
+                    lo3, hi3 = tuple(sb[0]) + (0.0,), tuple(sb[1]) + (0.0,)
+                    common = all(max(x, y) <= min(u, v) for x, y, u, v in zip(sa[0], lo3, sa[1], hi3))
+                    # the strict separating-axis rule (a zero-size operand intersects iff it is strictly inside: has_intersection_point)
+                    strict = all(x < v and y < u for x, y, u, v in zip(sa[0], lo3, sa[1], hi3))
+                    if a.has_overlap(b) != common:
+                        bad.append(f"has_overlap={a.has_overlap(b)} but the 2D box at z=0 shares a point with the 3D box: {common}")
+                    if a.has_intersection(b) != strict:
+                        bad.append(f"has_intersection={a.has_intersection(b)} expected {strict}")
+                    i = a.intersection(b)
+                    if i.has_data and not (a.inside(i.extmin) and a.inside(i.extmax) and i.extmin.z == 0 == i.extmax.z
+                                           and b.inside(i.extmin) and b.inside(i.extmax)):
+                        bad.append(f"intersection {i} is not inside both operands (2D operand at z=0)")
+                    proj = all(max(x, y) <= min(u, v) for x, y, u, v in zip(sa[0][:2], sb[0], sa[1][:2], sb[1]))
+                    if b.has_overlap(a) != proj:
+                        bad.append(f"2D receiver: has_overlap={b.has_overlap(a)} but the projections overlap: {proj}")
+                    u = a.union(b)
+                    if not (u.inside(lo3) and u.inside(hi3) and u.contains(a)):
+                        bad.append(f"union {u} does not contain both operands")
+                    for msg in bad:
+                        ctx.fail(f"algebra/mixed/{msg.split()[0]}/{spec_str(sa)}/{spec_str(sb)}", f"3D {sa} with 2D {sb}: {msg}",
+                                 {"op": "none"})
         # points, point lists, grow
         coords = [-1, 0, 0.5, 1, 2, 2.5, 3]
         for sa in refs + rng.sample(grid, ctx.n(15, 80)):
@@ -2605,8 +2919,87 @@ def oracle_arc(ctx):
             ctx.fail(f"arc/{msg.split()[0]}/{n}", f"cubic_bezier_arc_parameters({a0}, {a0 + sweep}): {msg}", {"op": "arc", "a0": a0, "a1": a0 + sweep})
 
 
+def oracle_from_arc(ctx):
+    """O7b: cubic_bezier_from_arc for the start angles the converters deliver (-360 <= s < 360; span < 360 for s < 0): number of
+    segments = max(ceil(span / 90), segments), first point in direction s, last point in direction s + span, all control points
+    within 1.0004 * sqrt(2) r (from_arc_normalised + arc_whole_covers / arc_whole_in_sector)"""
+    from ezdxf.math import cubic_bezier_from_arc
+
+    rng = ctx.rng("fromarc")
+    S = "O7 arc approximation"
+    for n in range(ctx.n(600, 6000)):
+        s = rng.choice([0.0, 90.0, -90.0, 180.0, -180.0, 359.5, -359.5, rng.uniform(-360, 359.99)])
+        span = rng.choice([0.5, 45.0, 90.0, 90.000001, 180.0, 270.0, 359.0, rng.uniform(0.01, 359.9)] + ([360.0] if s >= 0 else []))
+        segs = rng.choice([1, 1, 2, 5])
+        r, c = rng.choice([1.0, 2.5, 10.0]), (rng.randint(-8, 8) / 4, rng.randint(-8, 8) / 4)
+        ctx.count(S, ("fa", n), True)
+        ctx.hist(S, "from_arc")
+        bad = []
+        try:
+            curves = list(cubic_bezier_from_arc(c, r, s, s + span, segs))
+        except Exception as ex:  # noqa
+            ctx.fail(f"arc/from_arc-raise/{n}", f"cubic_bezier_from_arc({c}, {r}, {s}, {s + span}, {segs}) raised {ex!r}",
+                     {"op": "fromarc", "args": [list(c), r, s, s + span, segs]})
+            continue
+        # at an exact multiple of 90 degrees the float quotient may exceed the integer by one ulp: one segment more is legitimate
+        q = span / 90.0
+        want_n = {max(math.ceil(round(q, 9)), segs), max(math.ceil(q + 1e-9), segs)}
+        if len(curves) not in want_n or (curves and span / len(curves) > 90.0 + 1e-9):
+            bad.append(f"{len(curves)} segments, expected {sorted(want_n)}")
+        if curves:
+            p0, p3 = curves[0].control_points[0], curves[-1].control_points[3]
+            e0 = (c[0] + r * math.cos(math.radians(s)), c[1] + r * math.sin(math.radians(s)))
+            e1 = (c[0] + r * math.cos(math.radians(s + span)), c[1] + r * math.sin(math.radians(s + span)))
+            if math.hypot(p0.x - e0[0], p0.y - e0[1]) > 1e-9 * r or math.hypot(p3.x - e1[0], p3.y - e1[1]) > 1e-9 * r:
+                bad.append(f"end points {p0} {p3} are not at the angles {s}, {s + span}")
+            far = max(math.hypot(q.x - c[0], q.y - c[1]) for cv in curves for q in cv.control_points)
+            if far > 1.0004 * math.sqrt(2) * r:
+                bad.append(f"a control point is {far} from the centre")
+        for msg in bad[:2]:
+            ctx.fail(f"arc/from_arc/{n}", f"cubic_bezier_from_arc({c}, {r}, {s}, {s + span}, {segs}): {msg}",
+                     {"op": "fromarc", "args": [list(c), r, s, s + span, segs]})
+
+
+def oracle_bulge(ctx):
+    """O9: bulge_to_arc on the real code against the trigonometry-free model (bulgeCenter, bulgeRadius2, bulgeApex): centre and
+    radius (1e-9 relative), the returned angles point at the end points, the arc is counter-clockwise and passes the apex"""
+    from ezdxf.math import bulge_to_arc
+
+    rng = ctx.rng("bulge")
+    S = "O9 bulge_to_arc"
+    for n in range(ctx.n(800, 8000)):
+        p1 = (rng.randint(-40, 40) / 4, rng.randint(-40, 40) / 4)
+        p2 = (rng.randint(-40, 40) / 4, rng.randint(-40, 40) / 4)
+        if p1 == p2:
+            continue
+        b = rng.choice([1.0, -1.0, 0.5, -0.5, 0.25, 2.0, -3.0, 0.01, rng.uniform(-4, 4) or 0.3])
+        ctx.count(S, ("b", n), True)
+        c, a0, a1, r = bulge_to_arc(p1, p2, b)
+        dx, dy = p2[0] - p1[0], p2[1] - p1[1]
+        k = (1 - b * b) / (4 * b)
+        mc = ((p1[0] + p2[0]) / 2 - dy * k, (p1[1] + p2[1]) / 2 + dx * k)
+        mr = math.sqrt((dx * dx + dy * dy) * (1 + b * b) ** 2 / (16 * b * b))
+        apex = ((p1[0] + p2[0]) / 2 + dy * b / 2, (p1[1] + p2[1]) / 2 - dx * b / 2)
+        scale = max(1.0, mr, abs(mc[0]), abs(mc[1]))
+        bad = []
+        if math.hypot(c.x - mc[0], c.y - mc[1]) > 1e-9 * scale or abs(r - mr) > 1e-9 * scale:
+            bad.append(f"centre/radius {c} {r} differ from the model {mc} {mr}")
+        s_pt, e_pt = (p2, p1) if b < 0 else (p1, p2)
+        for ang, pt in ((a0, s_pt), (a1, e_pt)):
+            if math.hypot(c.x + r * math.cos(ang) - pt[0], c.y + r * math.sin(ang) - pt[1]) > 1e-7 * scale:
+                bad.append(f"the angle {ang} does not point at {pt}")
+        sweep = (a1 - a0) % math.tau
+        am = a0 + sweep / 2
+        if math.hypot(c.x + r * math.cos(am) - apex[0], c.y + r * math.sin(am) - apex[1]) > 1e-7 * scale:
+            bad.append(f"the middle of the counter-clockwise arc is not the apex {apex}")
+        for msg in bad[:2]:
+            ctx.fail(f"bulge/{msg.split()[0]}/{n}", f"bulge_to_arc({p1}, {p2}, {b}): {msg}", {"op": "none"})
+
+
 def oracle(ctx):
+    oracle_bulge(ctx)
     oracle_arc(ctx)
+    oracle_from_arc(ctx)
     oracle_algebra(ctx)
     oracle_docs(ctx)
     oracle_bezier(ctx)
@@ -2718,6 +3111,12 @@ def replay(ctx, rep):
                 b = check_invalidate_history(doc, ents, r["fast"], _random.Random(r["hseed"]))
                 if b:
                     bad.append(f"{f['key']}: {b[0][1]}")
+            elif r["op"] == "fromarc":
+                from ezdxf.math import cubic_bezier_from_arc
+                c, rr, a0, a1, sg = r["args"]
+                curves = list(cubic_bezier_from_arc(tuple(c), rr, a0, a1, sg))
+                if not curves or (a1 - a0) / len(curves) > 90.0 + 1e-9 or len(curves) > max(math.ceil((a1 - a0) / 90.0 + 1e-9), sg):
+                    bad.append(f"{f['key']}: {len(curves)} segments")
             elif r["op"] == "arc":
                 import numpy as np
                 from ezdxf.math import cubic_bezier_arc_parameters
